@@ -209,6 +209,8 @@ EQ_CASES = [
     ("LOGGING_CONF", "/tmp/l.conf", "/tmp/l.conf"),
     ("SERVICE_AUTH_PROVIDER", "deep.api.auth.BasicAuthProvider", "deep.api.auth.BasicAuthProvider"),
     ("APP_ROOT", "/app", "/app"), ("APP_ROOT", "/b", "/b"),
+    ("APP_ROOT+ENV", "/b", "/b"),        # given in code AND a different DEEP_APP_ROOT in the environment: code wins
+    ("SERVICE_URL+ENV", "code:1", "code:1"), ("POLL_TIMER+ENV", "7", 7),
 ]
 
 
@@ -310,7 +312,7 @@ def equivalence(ci: int) -> str:
     """
     Every documented setting behaves as documented, identically whether given in code or as its DEEP_ environment
     variable (text): poll interval usable by the timer, channel choice, prefix lists, auth provider, app root.
-    PRE: 0 <= ci <= 20
+    PRE: 0 <= ci <= 23
     POST: _ == ""
     """
     world.begin_path()
@@ -318,6 +320,8 @@ def equivalence(ci: int) -> str:
     from deep.config.tracepoint_config import TracepointConfigService
     ci = world.realize(ci)
     key, text, code_value = EQ_CASES[ci]
+    if key.endswith("+ENV"):
+        return _both(key[:-4], text, code_value)
     base = {} if key == "APP_ROOT" else {"APP_ROOT": "/app"}
     # ---- via environment
     if key == "APP_ROOT":
@@ -352,6 +356,36 @@ def equivalence(ci: int) -> str:
         return "C19:equivalence:%s-from-environment-misbehaves" % key
     if b_code != want:
         return "C19:equivalence:%s-from-code-misbehaves" % key
+    return ""
+
+
+def _both(key, text, code_value):
+    """The setting is given in code AND (with another value) in the environment: the code value wins, also through deep.start."""
+    import deep as dp
+    from deep.config.config_service import ConfigService
+    got = []
+
+    class FakeDeep:
+        def __init__(self, cfg):
+            got.append(cfg)
+
+        def start(self):
+            pass
+    env = {"DEEP_" + key: "9" if key == "POLL_TIMER" else "/from-env"}
+    real_deep, real_os, real_init = dp.Deep, dp.os, dp.logging.init
+    dp.Deep, dp.os, dp.logging.init = FakeDeep, FakeOs(env), (lambda cfg=None: None)
+    try:
+        with _Env(env):
+            code = {key: code_value}
+            if key != "APP_ROOT":
+                code["APP_ROOT"] = "/app"
+            dp.start(code)
+            b = _behaviour(key, got[0])
+    finally:
+        dp.Deep, dp.os, dp.logging.init = real_deep, real_os, real_init
+    world.reached()
+    if b != _reference(key, text):
+        return "C19:precedence:%s-environment-beats-the-value-given-in-code" % key
     return ""
 
 
@@ -395,6 +429,6 @@ CONDITIONS = [
                                 for a in range(3) for b in range(3) for n in range(5) for r in range(4)],
          twins=["reach", "mutant:include_before_exclude@ni == 1 and ne == 1 and len(filename) == 2 and ri == 0"],
          bounds="file name FREE symbolic string <= 4 chars; 0-2 include and 0-2 exclude prefixes (FREE symbolic, <= 2 and <= 1 chars); app root from a pool of 4"),
-    dict(fn="equivalence", cubes=["ci == %d" % i for i in range(21)], twins=["reach"],
-         bounds="21 (key, text) cases over all documented keys; env text vs the natural code value"),
+    dict(fn="equivalence", cubes=["ci == %d" % i for i in range(24)], twins=["reach"],
+         bounds="24 cases over all documented keys: env text vs the natural code value, and code value against a different DEEP_ variable through deep.start"),
 ]
